@@ -15,8 +15,8 @@ CLAIMED = {
             "exception, system info, misc info 1-5, memory info, handle descriptors, the 9 CPU contexts), the hand-written CodeView readers and debug-id derivation, context layout selection by architecture + flag check. "
             "Not decided: whole-dump serialisation, names, the directory's last-duplicate-wins rule, UnifiedMemoryList lookups.",
             "one record per harness; quick tier = records up to 200 bytes, thorough tier adds the large contexts and misc-info 3-5"),
-    "C04": ("One inductive unwinding step of the frame-pointer technique per architecture (x86, amd64, arm/iOS, arm64, arm64_old) through a cfg-guarded forwarder to the real private function: arbitrary callee registers, validity fixed per harness, 16-32 symbolic stack bytes at an arbitrary base, both byte orders; the caller frame must equal the calling-convention formulae (return address, stack pointer, frame pointer, trust, exact validity set), None exactly when the documented preconditions fail, never a panic. Plus the real CfiStackWalker: its constructor from_ctx_and_args (lookup address = frame.instruction not the raw ip, grand-callee bookkeeping, forwarded callee-saved registers) and each FrameWalker callback (width conversion without touching validity on failure, callee validity honoured, clear removes exactly one name, stack reads in the dump's byte order). One step from an arbitrary state covers chains of any depth for this technique. Not decided: CFI evaluation order and scan inside the async drivers, technique priority, return-address adjustment, MIPS, pointer-auth mask with modules, module/function labels.",
-            "one step; stack window 16 (32-bit) / 32 (64-bit) bytes; empty module list (module lookup stubbed for the constructor)"),
+    "C04": ("One inductive unwinding step of the frame-pointer technique per architecture (x86, amd64, arm/iOS, arm64, arm64_old) through a cfg-guarded forwarder to the real private function: arbitrary callee registers, validity fixed per harness, 16-32 symbolic stack bytes at an arbitrary base, both byte orders; the caller frame must equal the calling-convention formulae (return address, stack pointer, frame pointer, trust, exact validity set), None exactly when the documented preconditions fail, never a panic. Plus ptr_auth_strip of both ARM64 layouts on two modules with symbolic placement (mask from the end of the highest module, Apple default as floor), and the real CfiStackWalker: its constructor from_ctx_and_args on a real one-module list (a walker exists iff frame.instruction - not the raw ip - lies in the module; grand-callee bookkeeping, forwarded callee-saved registers) and each FrameWalker callback (width conversion without touching validity on failure, callee validity honoured, clear removes exactly one name, stack reads in the dump's byte order). One step from an arbitrary state covers chains of any depth for this technique. Not decided: CFI evaluation order and scan inside the async drivers, technique priority, return-address adjustment, MIPS, module/function labels.",
+            "one step; stack window 16 (32-bit) / 32 (64-bit) bytes; empty module list for the frame-pointer step, one or two modules (assembled by a hook) for the constructor and the pointer-auth mask"),
     "C06": ("The real eval_cfi_expr on concrete program texts (token sequence enumerated by a generator: all programs of <= 2 core tokens, all well-formed 3-token binary-operator programs, curated longer ones up to 9 tokens; thorough: all 3-token core programs and 2-token programs over the wider alphabet) with every numeric input symbolic: two callee registers (value or unknown), CFA (value or unavailable), two memory cells at symbolic addresses. Result compared with a reference interpreter of the documented postfix language that never sees the text. Programs that divide by something other than a small power-of-two literal or multiply two non-literals run with 12-bit operands (64-bit multiplier/divider equivalence is out of reach for SAT); 90 programs with 16+-digit literals or chained hard operators are excluded and listed. Rule tables: parse_cfi_exprs run for real on concrete record texts (label grammar, `$reg:` = `reg:`, expression extent, later rule wins within and across records, malformed records rejected), and walk_with_stack_cfi run for real with the parser replaced by a table oracle (records parsed INIT-then-deltas, .cfa and .ra mandatory, CFA rule evaluated without a CFA, set_cfa/set_ra then every register in table order, a rule that fails to evaluate clears the register, failure before the CFA/RA are known stores nothing); the rule table is an association list standing in for HashMap under the verification cfg. Also the CfiStackWalker callback every rule result goes through (too-wide result leaves the register unknown). Not decided: parser and evaluator back to back on one text (the parser's pointer-difference sub-slices are not constants for the symbolic executor), HashMap iteration order effects, walk_frame's address rule, literals of 16+ digits.",
             "programs of at most 3 tokens exhaustively (core alphabet) plus curated programs up to 9 tokens; all 64-bit values except the 12-bit narrowing stated above"),
     "C07": ("walk_with_stack_win_fpo and win_frame_size executed symbolically for every value of the u32 size fields, callee esp/ebp/ebx (value or unknown), eip, has-grand-callee, grand-callee parameter size and a 4-word stack window at any 64-bit address; the outcome must equal the documented FPO formulae in exact arithmetic (incl. the leftover-return-address skip and the ebp slot), fail cleanly (None, no panic) on any overflow/underflow/unreadable word, set only eip/esp/ebp/ebx. clear_stack_win_caller_registers driven into the real x86 CfiStackWalker (known finding: the $-prefixed names clear nothing); the walker's grand-callee bookkeeping through the real constructor. Not decided: program strings (eval_win_expr does not finish symbolic execution even for 4-token programs), parser-side record repair, framedata-over-fpo preference.",
@@ -35,7 +35,7 @@ CLAIMED = {
     "C17": ("The leaf-name kernel every lookup path is built from (leafname, safe_leafname) on all ASCII strings up to 5 bytes: the leaf is the last component, has no separator, and what the lookups use is never empty, '.', '..' or drive-prefixed. "
             "The step from 'safe leaf' to 'safe relative path' is a stated manual reduction (leaf/hex-id/leaf' joins). Not decided: replace_or_add_extension, join, id formatting, non-ASCII names.",
             "ASCII names of at most 5 bytes"),
-    "C18": ("For each CPU context type (quick: x86, amd64, arm; thorough: all nine) and each register name or alias of the architecture table, with the whole register file and the written value symbolic: reading through the name sees the architecture slot, write-then-read returns the value, the write lands in that slot and nowhere else, memoize_register gives the canonical name; validity sets (All, empty, {canonical}, {name}, {alias spelling}, {unrelated}) are honoured by get_register, by the type-erased MinidumpContext dispatchers and by valid_registers; REGISTERS equals the architecture list; the enumerations yield every register once with its slot value; sp/ip names agree with the dedicated accessors; unknown names of 1-3 bytes give None. Not decided: format_register text; CpuContext::registers() stepping beyond x86 (amd64 in the thorough tier).",
+    "C18": ("For each CPU context type (quick: x86, amd64, arm in full and the sp/ip names of the other six; thorough: all nine in full) and each register name or alias of the architecture table, with the whole register file and the written value symbolic: reading through the name sees the architecture slot, write-then-read returns the value, the write lands in that slot and nowhere else, memoize_register gives the canonical name; validity sets (All, empty, {canonical}, {name}, {alias spelling}, {unrelated}) are honoured by get_register, by the type-erased MinidumpContext dispatchers and by valid_registers; REGISTERS equals the architecture list; the enumerations yield every register once with its slot value; sp/ip names agree with the dedicated accessors; unknown names of 1-3 bytes give None. Not decided: format_register text; CpuContext::registers() stepping beyond x86 (amd64 in the thorough tier).",
             "names enumerated (finite), values solved; unknown names up to 3 bytes over [A-Za-z0-9_$.]"),
     "C19": ("BitFlipDetails::confidence for every details value (bit-precise f32): in [0,1], never NaN, no index panic; BitRange::range equals the documented platform ranges; MemoryOperation::is_possibly_allowed_for / is_allowed_for against the Windows page-protection constants for every protection word; PossibleBitFlip::calculate_heuristics with a full amd64 context (thorough); reachability of a candidate through try_bit_flips. The candidate loop itself (every address vs. 'single bit inside the range') does not fit in 45 GB and is not decided; nor are the early return for an accessible address, platform gating, the register pass.",
             "all details values; three bit ranges"),
